@@ -67,6 +67,9 @@ def entry_rule(ctx, res, rule="C01.entry", aspects=None, only_with_options=False
                 o_val = fld.get("options")
                 if has_opts:
                     ok = isinstance(o_val, Agg) and tuple(o_val.fields) == tuple(opt_syms)
+                    if rule == "C01.entry" and not ok:
+                        # for strict acceptance it is enough that strict options stay strict: unchanged, or the strict default
+                        ok = isinstance(o_val, Agg) and tuple(o_val.fields) == (Conc(0), Conc(0))
                     res.ob(ok, rule, pkey + "/options", "%s does not pass its `options` argument unchanged to the parser (got %r)" % (root, o_val),
                            sample={"entry": root, "options": "caller's argument, unchanged"})
                 else:
@@ -96,7 +99,7 @@ def entry_rule(ctx, res, rule="C01.entry", aspects=None, only_with_options=False
             if A & {"tail-ok", "tail-err", "tail-verdict"}:
                 tail_rule(ctx, res, it, o, root, kind, pkey, pref, rule, A)
         if "source" in A:
-            ok = sorted(forms) in (["str-chars"], ["caller-iterator"], ["utf8-decode"], ["std-invalid", "std-valid"])
+            ok = sorted(set(forms)) in (["str-chars"], ["caller-iterator"], ["utf8-decode"], ["std-invalid", "std-valid"])
             res.ob(ok, rule, key + "/source-paths", "%s: the paths reaching the core are %s; expected one source, or the valid / ill-formed pair of a from_utf8 based decoder" % (root, sorted(forms)))
         n += 1
         res.count("entry_points_analysed")
@@ -144,7 +147,7 @@ def utf8_rule(ctx, res, root, key, forms):
     from .. import utf8model
     P = ctx.P
     res.count("byte_decoders_analysed")
-    if sorted(forms) == ["std-invalid", "std-valid"]:
+    if sorted(set(forms)) == ["std-invalid", "std-valid"]:
         res.ob(True, "C01.utf8", key + "/utf8", "", sample={"entry": root, "decoder": "core::str::from_utf8 (trusted std contract): characters of the longest well-formed prefix, then one error item iff the input is ill-formed"})
         res.trusted.append("core::str::from_utf8 / Utf8Error::valid_up_to / str::chars implement Unicode well-formedness (std contract)")
         return
@@ -208,15 +211,21 @@ def adaptor_rule(ctx, res, root, key, rule="C01.entry", A=("adaptor-char", "adap
     adaptor-char: items neither dropped nor altered (acceptance); adaptor-len: the recorded length is len_utf8 (offsets)."""
     P = ctx.P
     nexts = entry.find_next_instance(P, root)
-    if len(nexts) != 1:
-        res.violation(rule, key + "/adaptor-shape", "%s: expected exactly one input iterator type behind the parser, found %d" % (root, len(nexts)))
+    if not nexts:
+        res.violation(rule, key + "/adaptor-shape", "%s: no input iterator found behind the parser" % root)
         return
+    res.count("adaptors_analysed")
+    for nx in sorted(nexts):
+        adaptor_one(ctx, res, root, key if len(nexts) == 1 else key + "/" + P.inst[nx]["name"][:60], rule, A, nx)
+
+
+def adaptor_one(ctx, res, root, key, rule, A, nx):
+    P = ctx.P
     try:
-        src, results = entry.check_adaptor(P, list(nexts)[0])
+        src, results = entry.check_adaptor(P, nx)
     except Undecided as e:
         res.violation(rule, key + "/adaptor-undecided", "%s: undecided while interpreting the input adaptor: %s" % (root, e))
         return
-    res.count("adaptors_analysed")
     if results and results[0][0] == "identity":
         res.ob(True, rule, key + "/adaptor", "", sample={"entry": root, "adaptor": "none (items are already DecodedChar)", "source": src})
         return
